@@ -2071,8 +2071,19 @@ impl OffsetConflict {
                     tzname = tz.diagnostic_name(),
                 ))
             }
-            Fold { .. } => {
-                let kind = Unambiguous { offset: given };
+            Fold { before, after } => {
+                // N.B. We use the time zone's offset and not the one given.
+                // They can differ when the equality predicate is inexact,
+                // e.g., when the given offset was rounded to the nearest
+                // minute but the time zone's offset has non-zero seconds.
+                let offset = if given == before || given == after {
+                    given
+                } else if is_equal(given, before) {
+                    before
+                } else {
+                    after
+                };
+                let kind = Unambiguous { offset };
                 Ok(AmbiguousTimestamp::new(dt, kind).into_ambiguous_zoned(tz))
             }
         }
